@@ -2431,7 +2431,7 @@ pub fn c13(ix: &Index, prop: &'static str, sched: bool) -> Vec<Viol> {
         let want_kinds: &[AdapterKind] = if prop == "C13" {
             &[AdapterKind::InSpan, AdapterKind::EnterOnPoll, AdapterKind::InSpanEnterOnPoll, AdapterKind::TracedBoxed]
         } else {
-            &[AdapterKind::Stream, AdapterKind::Sink, AdapterKind::DuplexViaStream, AdapterKind::DuplexViaSink]
+            &[AdapterKind::Stream, AdapterKind::Sink, AdapterKind::DuplexViaStream, AdapterKind::DuplexViaSink, AdapterKind::StreamTwice, AdapterKind::SinkTwice]
         };
         if !want_kinds.contains(&a.kind) {
             continue;
